@@ -232,6 +232,9 @@ func vc20SaneTimeouts(c *configuration) (ok bool) {
 var (
 	vc20ClientV4 = netip.MustParseAddr("192.0.2.55")
 	vc20ClientV6 = netip.MustParseAddr("2001:db8:1::55")
+
+	// vc20ClientMapped is an IPv4 client as a dual-stack socket reports it.
+	vc20ClientMapped = netip.MustParseAddr("::ffff:192.0.2.57")
 )
 
 // vc20AllocHazard reports whether creating a request counter for n requests
@@ -306,12 +309,19 @@ func (o *vc20Outcome) vc20ExerciseRateLimit(c *configuration) {
 	small := (&dns.Msg{}).SetReply(req)
 	big := vc20BigResponse(req)
 
-	for _, ip := range []netip.Addr{vc20ClientV4, vc20ClientV6} {
+	for _, ip := range []netip.Addr{vc20ClientV4, vc20ClientV6, vc20ClientMapped} {
 		fam := "ipv4"
-		if ip.Is6() {
+		switch {
+		case ip.Is4In6():
+			// Which family's settings apply to this form is not documented:
+			// the request may be counted either way, but it must be handled
+			// without a panic or an error.
+			fam = "ipv4-mapped"
+		case ip.Is6():
 			fam = "ipv6"
 		}
 
+		lenient := ip.Is4In6()
 		o.step("ratelimit-"+fam, func() (err error) {
 			allowSubnets := netutil.UnembedPrefixes(rc.Allowlist.List)
 			allowlist := ratelimit.NewDynamicAllowlist(allowSubnets, nil)
@@ -327,7 +337,7 @@ func (o *vc20Outcome) vc20ExerciseRateLimit(c *configuration) {
 			// first ANY query of a fresh client is a query like any other.
 			anyReq := (&dns.Msg{}).SetQuestion("c20-ratelimit.example.net.", dns.TypeANY)
 			anyDrop, _, anyErr := ratelimit.NewBackoff(rc.toInternal(allowlist)).IsRateLimited(ctx, anyReq, ip)
-			if anyErr != nil || anyDrop != rc.RefuseANY {
+			if anyErr != nil || (anyDrop != rc.RefuseANY && !lenient) {
 				o.fail("ratelimit %s: refuse_any is %t but the first ANY query of a fresh client: dropped %t, error %v",
 					fam, rc.RefuseANY, anyDrop, anyErr)
 			}
@@ -337,6 +347,8 @@ func (o *vc20Outcome) vc20ExerciseRateLimit(c *configuration) {
 			switch {
 			case err != nil:
 				o.fail("ratelimit %s: first request of a fresh client: error %v", fam, err)
+			case lenient:
+				// Handled or dropped.
 			case allowlisted:
 				o.fail("ratelimit %s: client %s is not in the allowlist but was allowlisted", fam, ip)
 			case drop:
@@ -353,7 +365,7 @@ func (o *vc20Outcome) vc20ExerciseRateLimit(c *configuration) {
 			// The per-profile rate limiter gets the same response-size
 			// estimate through the profile storage.
 			pl := agd.NewDefaultRatelimiter(&agd.RatelimitConfig{RPS: 10, Enabled: true}, rc.ResponseSizeEstimate)
-			if res := pl.Check(ctx, req, ip); res != agd.RatelimitResultPass {
+			if res := pl.Check(ctx, req, ip); res != agd.RatelimitResultPass && !lenient {
 				o.fail("profile ratelimit %s: first request: result %v", fam, res)
 			}
 
@@ -849,6 +861,11 @@ func (fx *vc20Fixture) vc20Exercise(c *configuration) (o *vc20Outcome) {
 		isReal := !have && len(s.BindData()) > 0 && s.BindData()[0].PrefixAddr == nil
 		if isReal {
 			bc.Addr = "127.0.0.1:0"
+			if fx.dualStack {
+				// A dual-stack socket: the IPv4 clients below are reported
+				// to the server in the IPv4-mapped form.
+				bc.Addr = "[::]:0"
+			}
 		}
 
 		l, err = dnssvc.NewListener(s, bc, nonDNS)
@@ -916,6 +933,20 @@ func vc20ClientTLS(alpn ...string) (conf *tls.Config) {
 	return &tls.Config{InsecureSkipVerify: true, ServerName: "dns.example.com", NextProtos: alpn}
 }
 
+// vc20Loopback returns the IPv4 loopback address with the port of a.
+func vc20Loopback(a net.Addr) (hostport string) {
+	if a == nil {
+		return "127.0.0.1:0"
+	}
+
+	_, port, err := net.SplitHostPort(a.String())
+	if err != nil {
+		return a.String()
+	}
+
+	return net.JoinHostPort("127.0.0.1", port)
+}
+
 // vc20CheckAnswer returns an error if resp is not the upstream's answer to req.
 func vc20CheckAnswer(req, resp *dns.Msg) (err error) {
 	if resp == nil || resp.Id != req.Id || resp.Rcode != dns.RcodeSuccess || len(resp.Answer) == 0 {
@@ -928,7 +959,7 @@ func vc20CheckAnswer(req, resp *dns.Msg) (err error) {
 // vc20ExchangeDoT sends two pipelined queries over one TLS connection.
 func vc20ExchangeDoT(l dnssvc.Listener) (got int, err error) {
 	cli := &dns.Client{Net: "tcp-tls", TLSConfig: vc20ClientTLS(), Timeout: 5 * time.Second}
-	conn, err := cli.Dial(l.LocalTCPAddr().String())
+	conn, err := cli.Dial(vc20Loopback(l.LocalTCPAddr()))
 	if err != nil {
 		return 0, err
 	}
@@ -971,7 +1002,7 @@ func vc20ExchangeDoQ(l dnssvc.Listener) (got int, err error) {
 	ctx, cancel := context.WithTimeout(context.Background(), 5*time.Second)
 	defer cancel()
 
-	conn, err := quic.DialAddr(ctx, l.LocalUDPAddr().String(), vc20ClientTLS("doq"), &quic.Config{})
+	conn, err := quic.DialAddr(ctx, vc20Loopback(l.LocalUDPAddr()), vc20ClientTLS("doq"), &quic.Config{})
 	if err != nil {
 		return 0, fmt.Errorf("dialing: %w", err)
 	}
@@ -1028,7 +1059,7 @@ func vc20ExchangeDoH(l dnssvc.Listener) (got int, err error) {
 		return 0, err
 	}
 
-	u := "https://" + l.LocalTCPAddr().String() + "/dns-query"
+	u := "https://" + vc20Loopback(l.LocalTCPAddr()) + "/dns-query"
 	httpResp, err := cli.Post(u, "application/dns-message", bytes.NewReader(data))
 	if err != nil {
 		return 0, err
@@ -1059,7 +1090,7 @@ func vc20ExchangeDNSCrypt(l dnssvc.Listener, srv *agd.Server) (got int, err erro
 
 	cli := &dnscrypt.Client{Timeout: 5 * time.Second, Net: "udp", UDPSize: 4096}
 	ri, err := cli.DialStamp(dnsstamps.ServerStamp{
-		ServerAddrStr: l.LocalUDPAddr().String(),
+		ServerAddrStr: vc20Loopback(l.LocalUDPAddr()),
 		ServerPk:      pk,
 		ProviderName:  srv.DNSCrypt.ProviderName,
 		Proto:         dnsstamps.StampProtoTypeDNSCrypt,
@@ -1088,7 +1119,7 @@ func vc20ExchangePlain(l dnssvc.Listener) (got int, err error) {
 		cli := &dns.Client{Net: netw, Timeout: 5 * time.Second}
 		req := (&dns.Msg{}).SetQuestion("c20-plain-"+netw+".example.net.", dns.TypeA)
 		var resp *dns.Msg
-		resp, _, err = cli.Exchange(req, addr.String())
+		resp, _, err = cli.Exchange(req, vc20Loopback(addr))
 		if err != nil {
 			return got, fmt.Errorf("%s: %w", netw, err)
 		} else if err = vc20CheckAnswer(req, resp); err != nil {
@@ -1186,6 +1217,11 @@ func (o *vc20Outcome) vc20RealListener(c *configuration, rl *vc20RealListener) {
 	switch {
 	case err == nil:
 		o.classes = append(o.classes, tag+"-real-answered")
+		if a := l.LocalUDPAddr(); a != nil && strings.HasPrefix(a.String(), "[::]") {
+			o.classes = append(o.classes, "real-dual-stack-ipv4-client")
+		} else if a = l.LocalTCPAddr(); a != nil && strings.HasPrefix(a.String(), "[::]") {
+			o.classes = append(o.classes, "real-dual-stack-ipv4-client")
+		}
 	case vc20IsTimeout(err) || elapsed >= 400*time.Millisecond || !must:
 		// Slow or bounded by a tiny configured timeout: decides nothing.
 		o.timeouts++
@@ -1229,17 +1265,24 @@ func (fx *vc20Fixture) vc20Queries(
 				plainSeen = true
 			}
 
-			for _, client := range []netip.Addr{vc20ClientV4, vc20ClientV6} {
+			for _, client := range []netip.Addr{vc20ClientV4, vc20ClientV6, vc20ClientMapped} {
 				n++
 				// The same name is asked on every server: after the first
 				// server this is the cache-hit path when a cache is on.
 				qtype := dns.TypeA
 				name := "c20-v4.example.net."
-				if client.Is6() {
+				answered := must
+				switch {
+				case client.Is4In6():
+					// An IPv4 client behind a dual-stack socket: handled or
+					// dropped, never a panic or an error.
+					name, answered = "c20-mapped.example.net.", false
+					o.classes = append(o.classes, "client-ipv4-mapped")
+				case client.Is6():
 					qtype, name = dns.TypeAAAA, "c20-v6.example.net."
 				}
 
-				fx.vc20Query(o, c, h, s, client, name, qtype, must)
+				fx.vc20Query(o, c, h, s, client, name, qtype, answered, sane)
 			}
 		}
 	}
@@ -1259,6 +1302,7 @@ func (fx *vc20Fixture) vc20Query(
 	name string,
 	qtype uint16,
 	must bool,
+	noErr bool,
 ) {
 	var laddr netip.AddrPort
 	bd := s.BindData()
@@ -1325,8 +1369,8 @@ func (fx *vc20Fixture) vc20Query(
 
 	// A failure that took as long as the shortest generous timeout may be the
 	// machine being busy; it decides nothing.
-	if elapsed := time.Since(ri.StartTime); must && elapsed >= 400*time.Millisecond {
-		must = false
+	if elapsed := time.Since(ri.StartTime); (must || noErr) && elapsed >= 400*time.Millisecond {
+		must, noErr = false, false
 		o.timeouts++
 		o.classes = append(o.classes, "query-slow")
 	}
@@ -1336,7 +1380,7 @@ func (fx *vc20Fixture) vc20Query(
 		o.timeouts++
 		o.classes = append(o.classes, "query-timeout")
 	case err != nil:
-		if must && err.Error() != "panicked" {
+		if (must || noErr) && err.Error() != "panicked" {
 			o.fail("%s: error: %v", label, err)
 		}
 
@@ -1355,9 +1399,12 @@ func (fx *vc20Fixture) vc20Query(
 		switch {
 		case rw.resp.Rcode == dns.RcodeSuccess && len(rw.resp.Answer) > 0:
 			o.classes = append(o.classes, "query-answered")
-			if client.Is4() {
+			switch {
+			case client.Is4():
 				o.classes = append(o.classes, "served-v4")
-			} else {
+			case client.Is4In6():
+				o.classes = append(o.classes, "served-ipv4-mapped")
+			default:
 				o.classes = append(o.classes, "served-v6")
 			}
 		case rw.resp.Rcode == dns.RcodeServerFailure && !must:
